@@ -194,3 +194,42 @@ def run_nnd_pair(cfg, low_memory):
         line += " | " + init_tokens
     impl = ints_row(ind.ravel()) + " | " + bits_row(dst) + " | " + ints_row(st)
     return impl, line, (X, tab, ind, dst, init_copy)
+
+
+def check_init_kernels(res, rng, n_cases):
+    """initalize_heap_from_graph_indices, ..._and_distances, init_from_neighbor_graph vs the model, bit-exact"""
+    for c in range(n_cases):
+        n = int(rng.choice([3, 6, 15, 40])); k = int(rng.choice([1, 2, 4, 7])); w = int(rng.choice([k, k, max(1, k - 1), k + 2]))
+        X = gen_int_data(rng, n, int(rng.choice([1, 2, 3])), spread=int(rng.choice([1, 3])))
+        tab = dist_table(X, pd.squared_euclidean)
+        G = rng.integers(0, n, size=(n, w)).astype(np.int32)
+        G[rng.random((n, w)) < 0.3] = -1
+        case = {"n": n, "k": k, "w": w, "X": X.tolist(), "G": G.tolist()}
+        # (1) indices only: distances computed by the kernel with the real metric
+        h = utils.make_heap(n, k)
+        utils.initalize_heap_from_graph_indices(h, G, X, pd.squared_euclidean)
+        m = run_driver(["initidx %d %d %d | %s | %s" % (n, k, w, bits_row(tab), ints_row(G.ravel()))])[0]
+        res.traces += 1; res.count("init_kernel_cases")
+        res.case(("initidx", n, k, w, X.tobytes(), G.tobytes()), nontrivial=bool((G >= 0).sum() > n), sample={"n": n, "k": k, "w": w, "G0": G[0].tolist()})
+        if m != graph_tokens(h):
+            res.corr_fail("init_from_graph_indices_bit_exact", case, m[:200], graph_tokens(h)[:200])
+        # (2) indices and distances
+        D = np.where(G >= 0, tab[np.arange(n)[:, None], np.maximum(G, 0)], np.float32(0)).astype(np.float32)
+        h2 = utils.make_heap(n, k)
+        utils.initalize_heap_from_graph_indices_and_distances(h2, G, D)
+        if graph_tokens(h2) != graph_tokens(h):
+            res.corr_fail("init_from_graph_indices_and_distances", case, graph_tokens(h)[:200], graph_tokens(h2)[:200])
+        # (3) init_from_neighbor_graph on a sorted, well-formed graph (what update() re-seeds from)
+        srt = (h[0].copy(), h[1].copy())
+        utils.deheap_sort(srt[0], srt[1])
+        h3 = utils.make_heap(n, k)
+        pm.init_from_neighbor_graph(h3, srt[0], srt[1])
+        m3 = run_driver(["initnbr %d %d %d | %s | %s" % (n, k, k, ints_row(srt[0].ravel()), bits_row(srt[1]))])[0]
+        if m3 != graph_tokens(h3):
+            res.corr_fail("init_from_neighbor_graph_bit_exact", case, m3[:200], graph_tokens(h3)[:200])
+        # property: re-seeding reproduces the old lists as multisets of (idx, dist)
+        for p in range(n):
+            a = sorted(zip(srt[0][p].tolist(), srt[1][p].tolist())); b = sorted(zip(h3[0][p].tolist(), h3[1][p].tolist()))
+            if a != b:
+                res.violation("rank:reseed", "init_from_neighbor_graph does not reproduce row %d: %s -> %s" % (p, a, b), case)
+                break
